@@ -80,6 +80,10 @@ type propDef struct {
 	MemLimitKB int // address-space limit of each worker process (0 = none)
 	Env        []string // extra environment of the worker processes
 	Unscheduled bool    // tier T2: no scheduler, replay reproduces outcomes only (stability is measured)
+	// Parts: further harnesses that belong to the same check (e.g. a confirmation of
+	// the same property on another tier). Each has its own worker id (VERIF_PROP),
+	// package, budgets and environment; violations, counters and evidence are merged.
+	Parts []*propDef
 }
 
 var props = map[string]*propDef{}
@@ -316,6 +320,7 @@ type Violation struct {
 	Count     int             `json:"count"`
 	Shrunk    int             `json:"shrunk_from_runs,omitempty"`
 	RunIndex  int             `json:"run_index"`
+	Part      string          `json:"part,omitempty"` // harness part that found it ("" = the main one)
 }
 
 type WorkerResult struct {
@@ -610,6 +615,46 @@ func cmdCheck(id, tier string) int {
 		fmt.Fprintln(os.Stderr, err)
 		return 2
 	}
+	partOf := map[string]*propDef{"": p}
+	partBin := map[string]string{"": bin}
+	var partInfo []map[string]any
+	for _, part := range p.Parts {
+		pb := build(part.Pkg)
+		pruns, pwall := part.Quick, part.QuickWall
+		if tier == "thorough" {
+			pruns, pwall = part.Thorough, part.ThorWall
+		}
+		pw := runtime.NumCPU()
+		if pw > 16 {
+			pw = 16
+		}
+		if pruns < pw {
+			pw = pruns
+		}
+		pres, err := runWorkers(pb, part, "search", tier, seed, pruns, pwall, pw, "", nil)
+		if err != nil {
+			fmt.Fprintln(os.Stderr, err)
+			return 2
+		}
+		n, sk := 0, 0
+		for _, r := range pres {
+			n += r.Runs
+			sk += r.Skipped
+			for _, v := range r.Violations {
+				v.Part = part.ID
+			}
+			if r.Counters != nil {
+				pref := map[string]int64{}
+				for k, c := range r.Counters {
+					pref[part.ID+":"+k] = c
+				}
+				r.Counters = pref
+			}
+		}
+		partOf[part.ID], partBin[part.ID] = part, pb
+		partInfo = append(partInfo, map[string]any{"part": part.ID, "harness_package": part.Pkg, "runs": n, "outside_scope": sk, "rule": part.Rule, "components_real": part.Real, "components_stub": part.Stub, "assumptions": part.Assume, "unscheduled": part.Unscheduled})
+		results = append(results, pres...)
+	}
 	// aggregate
 	agg := &WorkerResult{Counters: map[string]int64{}}
 	hashes := map[string]struct{}{}
@@ -676,26 +721,27 @@ func cmdCheck(id, tier string) int {
 			continue
 		}
 		nviol++
-		rf := replayFile{Property: id, Harness: p.Pkg, RepoHead: repoHead(), Seed: seed, Tier: tier, Violation: v}
+		vp, vbin := partOf[v.Part], partBin[v.Part]
+		rf := replayFile{Property: id, Harness: vp.Pkg, RepoHead: repoHead(), Seed: seed, Tier: tier, Violation: v}
 		name := fmt.Sprintf("%s-%d-%s.json", id, seed, sanitize(v.Class+"-"+v.Signature))
 		path := filepath.Join(outDir, "replays", name)
 		rf.Replay = fmt.Sprintf("./check replay %s %s", id, path)
 		b, _ := json.MarshalIndent(rf, "", " ")
 		must(os.WriteFile(path, b, 0o644))
 		// confirm in a fresh process
-		rr, rerr := runWorkers(bin, p, "replay", tier, seed, 1, 5*time.Minute, 1, path, nil)
+		rr, rerr := runWorkers(vbin, vp, "replay", tier, seed, 1, 5*time.Minute, 1, path, nil)
 		stable := rerr == nil && rr[0] != nil && rr[0].ReplayMatch != nil && *rr[0].ReplayMatch
 		if stable && v.Class == "process-crash" {
 			stable = len(rr[0].Violations) > 0 && rr[0].Violations[0].Signature == v.Signature
 		}
-		if p.Unscheduled {
+		if vp.Unscheduled {
 			// replay exactness is measured, not assumed: 5 fresh processes
 			hits := 0
 			if stable {
 				hits++
 			}
 			for i := 0; i < 4; i++ {
-				r2, e2 := runWorkers(bin, p, "replay", tier, seed, 1, 5*time.Minute, 1, path, nil)
+				r2, e2 := runWorkers(vbin, vp, "replay", tier, seed, 1, 5*time.Minute, 1, path, nil)
 				if e2 == nil && r2[0] != nil && r2[0].ReplayMatch != nil && *r2[0].ReplayMatch {
 					hits++
 				}
@@ -730,6 +776,7 @@ func cmdCheck(id, tier string) int {
 			"known_findings_seen": knownHit,
 			"components_real":     p.Real,
 			"components_stub":     p.Stub,
+			"parts":               partInfo,
 			"worker_notes":        notes,
 			"workers":             workers,
 			"repo_head":           repoHead(),
@@ -763,8 +810,18 @@ func cmdReplay(id, file string) int {
 	if p == nil {
 		fatal2("unknown property %s", id)
 	}
-	bin := build(p.Pkg)
 	abs, _ := filepath.Abs(file)
+	if b, err := os.ReadFile(abs); err == nil {
+		var rf replayFile
+		if json.Unmarshal(b, &rf) == nil && rf.Violation != nil && rf.Violation.Part != "" {
+			for _, part := range p.Parts {
+				if part.ID == rf.Violation.Part {
+					p = part
+				}
+			}
+		}
+	}
+	bin := build(p.Pkg)
 	rr, err := runWorkers(bin, p, "replay", "quick", seedFromEnv(), 1, 5*time.Minute, 1, abs, nil)
 	if err != nil {
 		fmt.Fprintln(os.Stderr, err)
@@ -834,6 +891,9 @@ func main() {
 		pkgs := map[string]bool{}
 		for _, p := range props {
 			pkgs[p.Pkg] = true
+			for _, part := range p.Parts {
+				pkgs[part.Pkg] = true
+			}
 		}
 		var names []string
 		for k := range pkgs {
